@@ -60,7 +60,7 @@ class StreamOp:
 
     def allocation(self, name: str, at: ast.AST) -> ast.Call | None:
         """The np.zeros/np.empty/... call that the local array `name` was created by (unique assign def)."""
-        ds = [d for d in self.flow.reaching(name, self.cfg.node_for(at)) if d.kind == "assign"]
+        ds = [d for d in self.flow.origin_defs(name, self.cfg.node_for(at)) if d.kind == "assign"]
         if len(ds) != 1 or not isinstance(ds[0].value, ast.Call):
             return None
         return ds[0].value
